@@ -1163,7 +1163,7 @@ impl DnsRegistry {
         // may hold a name in lower case (the key of a service).
         self.name_changes
             .iter()
-            .find(|(original, _)| original.eq_ignore_ascii_case(name))
+            .find(|(original, _)| original.to_lowercase() == name.to_lowercase())
             .map_or(name, |(_, new_name)| new_name.as_str())
     }
 
